@@ -24,7 +24,7 @@ StacksSmall == {<<>>, <<Tb>>, <<Tc1, Tl>>}
 NoSet == [align |-> 0, line |-> 0, position |-> 0, size |-> 0, vertical |-> 0]
 Sets == {NoSet, [NoSet EXCEPT !.align = 1], [NoSet EXCEPT !.line = 1, !.position = 1], [align |-> 2, line |-> 2, position |-> 2, size |-> 1, vertical |-> 1]}
 
-Run1(a, st, ts) == [a |-> a, tags |-> st, ts |-> ts]
+Run1(a, st, ts) == [a |-> a, tags |-> st, ts |-> ts, col |-> 0]
 \* two adjacent runs with the same stack and no timestamp in between are one run: not a distinct truth
 RunSeqs(stacks) == {<<Run1(1, st, 0)>> : st \in stacks}
                    \cup ({<<Run1(1, s1, 0), Run1(2, s2, ts)>> : s1 \in stacks, s2 \in stacks, ts \in {0, 1500}}
@@ -58,21 +58,30 @@ TruthsP == {[BaseG EXCEPT !.cues = <<[SimpleCue(0, 1000) EXCEPT !.id = i1, !.not
 Tc3 == [name |-> "c", cls |-> <<3>>, ann |-> 0]
 \* ... and tags of the same name that differ in their annotation only (<lang en> next to <lang fr>)
 Tl2 == [name |-> "lang", cls |-> <<>>, ann |-> 2]
-StacksN == {<<>>, <<Tc1>>, <<Tc1, Tc2>>, <<Tc1, Tc2, Tc3>>, <<Ti>>, <<Ti, Tb>>, <<Ti, Tb, Ti>>, <<Tl>>, <<Tl2>>, <<Tc1, Tl2>>}
+\* ... and a class that names a colour (the writer wraps such runs) next to runs sharing a tag with it
+StacksN == {<<>>, <<Tc1>>, <<Tc1, Tc2>>, <<Tc1, Tc2, Tc3>>, <<Ti>>, <<Ti, Tb>>, <<Ti, Tb, Ti>>, <<Tl>>, <<Tl2>>, <<Tc1, Tl2>>,
+            <<Tb>>, <<Tc2, Tb>>, <<Tb, Tc2>>}
 RunSeqsN == {rs \in {<<Run1(1, s1, 0), Run1(2, s2, 0)>> : s1 \in StacksN, s2 \in StacksN} : rs[1].tags # rs[2].tags}
             \cup {rs \in {<<Run1(1, s1, 0), Run1(2, s2, 0), Run1(3, s3, 0)>> : s1 \in StacksN, s2 \in StacksN, s3 \in StacksN} :
                      rs[1].tags # rs[2].tags /\ rs[2].tags # rs[3].tags}
 TruthsN == {[BaseG EXCEPT !.cues = <<[SimpleCue(0, 1500) EXCEPT !.lines = <<Line1(0, rs)>>]>>] : rs \in RunSeqsN}
 
-Truths(fam) == CASE fam = "H" -> TruthsHOK [] fam = "C" -> TruthsC [] fam = "P" -> TruthsP [] fam = "N" -> TruthsN
+\* K: runs that carry a colour from another format next to runs that share tags with them
+RunK(a, st, c) == [a |-> a, tags |-> st, ts |-> 0, col |-> c]
+TruthsK == {[BaseG EXCEPT !.cues = <<[SimpleCue(0, 1500) EXCEPT !.lines = <<Line1(0, <<RunK(1, s1, c1), RunK(2, s2, c2)>>)>>]>>] :
+              s1 \in {<<>>, <<Tb>>, <<Tb, Ti>>}, s2 \in {<<>>, <<Tb>>, <<Ti>>, <<Tb, Ti>>}, c1 \in {0, 2}, c2 \in {0, 2}}
+           \ {[BaseG EXCEPT !.cues = <<[SimpleCue(0, 1500) EXCEPT !.lines = <<Line1(0, <<RunK(1, s1, 0), RunK(2, s1, 0)>>)>>]>>] : s1 \in {<<>>, <<Tb>>, <<Tb, Ti>>}}
+
+Truths(fam) == CASE fam = "K" -> TruthsK [] fam = "H" -> TruthsHOK [] fam = "C" -> TruthsC [] fam = "P" -> TruthsP [] fam = "N" -> TruthsN
 Vars(fam) == IF Wide THEN AllVars ELSE
              CASE fam = "H" -> [AllVars EXCEPT !.hrs = {TRUE}, !.tabs = {FALSE}]
                [] fam = "C" -> [AllVars EXCEPT !.trails = {FALSE}, !.eols = {"lf"}, !.boms = {FALSE}]
                [] fam = "P" -> [AllVars EXCEPT !.trails = {FALSE}, !.eols = {"crlf"}, !.boms = {TRUE}, !.hrs = {FALSE}, !.tabs = {FALSE}]
+               [] fam = "K" -> [AllVars EXCEPT !.trails = {FALSE}, !.eols = {"lf"}, !.boms = {FALSE}, !.hrs = {FALSE}, !.tabs = {FALSE}]
                [] fam = "N" -> [AllVars EXCEPT !.trails = {FALSE}, !.eols = {"lf"}, !.boms = {FALSE}, !.hrs = {FALSE}, !.tabs = {FALSE}]
 
 Init == g \in Truths(FAM) /\ d = [eol |-> "", bom |-> FALSE, toks |-> <<>>]
-Next == d.eol = "" /\ d' \in Renderings(g, Vars(FAM)) /\ UNCHANGED g
+Next == d.eol = "" /\ d' \in Renderings(ColourAsClass(g), Vars(FAM)) /\ UNCHANGED g
 Spec == Init /\ [][Next]_vars
-DecoderCorrect == d.eol # "" => RefRead(d) = Truth(g)
+DecoderCorrect == d.eol # "" => RefRead(d) = Truth(ColourAsClass(g))
 =============================================================================
